@@ -237,6 +237,18 @@ def freeNodes (w : World) : Nat → World
   | 0 => w
   | k + 1 => freeNodes (w.free X.nodeBytes) k
 
+/-- how many descriptors one QueryResp can carry -/
+def queryMaxDescs (mtu : Nat) : Nat :=
+  if mtu > X.sizeofDemux + X.sizeofQryRespHdr then (mtu - (X.sizeofDemux + X.sizeofQryRespHdr)) / 20 else 0
+
+/-- `num_descs` (uint16_t) -/
+def queryNum (count mtu : Nat) : Nat := (if count > queryMaxDescs mtu then queryMaxDescs mtu else count) % u16
+
+/-- the QueryResp frame -/
+def queryFrame (c : Cfg) (img : List Nat) (seq num : Nat) (more : Bool) (descs : List Nat) : List Nat :=
+  lltdHeader 0 (respDest img) c.ourMac (respDest img) c.ourMac seq X.opQueryResp X.tosDiscovery
+    ++ be 2 (num ||| (if more then 0x8000 else 0)) ++ descs
+
 /-- parseQuery -/
 def parseQuery (c : Cfg) (w : World) (st : St) (img : List Nat) : Out :=
   let st := { st with seq := fSeq img, mapperReal := fRealSrc img, mapperApparent := fEthSrc img, known := true }
@@ -244,21 +256,33 @@ def parseQuery (c : Cfg) (w : World) (st : St) (img : List Nat) : Out :=
   let (w, ok) := w.malloc mtu
   if !ok then { st := st, w := w, fx := [] } else
   let hdrLen := X.sizeofDemux + X.sizeofQryRespHdr
-  let maxDescs := if mtu > hdrLen then (mtu - hdrLen) / 20 else 0
-  let num := (if st.count > maxDescs then maxDescs else st.count) % u16
-  let more := st.count > num
-  let (descs, k) := queryLoop mtu st.sees num hdrLen
-  let frame := lltdHeader 0 (respDest img) c.ourMac (respDest img) c.ourMac st.seq X.opQueryResp X.tosDiscovery
-                ++ be 2 (num ||| (if more then 0x8000 else 0)) ++ descs
+  let num := queryNum st.count mtu
+  let r := queryLoop mtu st.sees num hdrLen
+  let frame := queryFrame c img st.seq num (decide (st.count > num)) r.1
   if hdrLen > mtu then { st := st, w := w, fx := [], fault := some (.oobWrite "parseQuery.header") } else
   let (w, f, _) := sendFx c w frame
-  let w := w.free mtu
-  let w := freeNodes w k
-  let rest := st.sees.drop k
-  let st := { st with sees := rest, count := if rest.isEmpty then 0 else st.count - k }
-  { st := st, w := w, fx := [f] }
+  let w := freeNodes (w.free mtu) r.2
+  let rest := st.sees.drop r.2
+  { st := { st with sees := rest, count := if rest.isEmpty then 0 else st.count - r.2 }, w := w, fx := [f] }
 
-/-- sendLargeTlvResponse; `data = none` is the NULL pointer -/
+/-- `dataSize` of a (pointer, size) pair; NULL has size 0 -/
+def optLen : Option (List Nat) → Nat
+  | some d => d.length
+  | none => 0
+
+/-- (bytes to write, length field) of sendLargeTlvResponse at per-frame payload `p`; `data = none` is the NULL pointer -/
+def respFields (p : Nat) (data : Option (List Nat)) (off : Nat) : Nat × Nat :=
+  let dataSize := optLen data
+  if data.isNone ∨ dataSize = 0 then (0, 0)
+  else if dataSize > off + p then (p, (p ||| 0x8000) % u16)
+  else if dataSize > off then ((dataSize - off) % u16, (dataSize - off) % u16)
+  else (0, 0)
+
+/-- the QueryLargeTlvResp frame -/
+def largeFrame (c : Cfg) (dest : Mac) (seq lenField : Nat) (payload : List Nat) : List Nat :=
+  lltdHeader 0 dest c.ourMac dest c.ourMac seq X.opQltlvResp X.tosDiscovery ++ be 2 lenField ++ payload
+
+/-- sendLargeTlvResponse -/
 def sendLargeTlvResponse (c : Cfg) (w : World) (st : St) (img : List Nat) (data : Option (List Nat)) (dataOffset : Nat) : Out :=
   let mtu := c.mtuEff
   let hdrLen := X.sizeofDemux + X.sizeofQltlvResp
@@ -266,17 +290,12 @@ def sendLargeTlvResponse (c : Cfg) (w : World) (st : St) (img : List Nat) (data 
   let bufferSize := hdrLen + maxPayload
   let (w, ok) := w.malloc bufferSize
   if !ok then { st := st, w := w, fx := [] } else
-  let dataSize := match data with | some d => d.length | none => 0
-  let (btw, lenField) : Nat × Nat :=
-    if data.isNone ∨ dataSize = 0 then (0, 0)
-    else if dataSize > dataOffset + maxPayload then (maxPayload, (maxPayload ||| 0x8000) % u16)
-    else if dataSize > dataOffset then ((dataSize - dataOffset) % u16, (dataSize - dataOffset) % u16)
-    else (0, 0)
+  let dataSize := optLen data
+  let (btw, lenField) := respFields maxPayload data dataOffset
   let src := match data with | some d => d | none => []
   if btw > 0 ∧ dataOffset + btw > dataSize then { st := st, w := w, fx := [], fault := some (.oobRead "sendLargeTlvResponse.data") } else
   if hdrLen + btw > bufferSize then { st := st, w := w, fx := [], fault := some (.oobWrite "sendLargeTlvResponse.buffer") } else
-  let frame := lltdHeader 0 (respDest img) c.ourMac (respDest img) c.ourMac st.seq X.opQltlvResp X.tosDiscovery
-                ++ be 2 lenField ++ slice src dataOffset btw
+  let frame := largeFrame c (respDest img) st.seq lenField (slice src dataOffset btw)
   let (w, f, _) := sendFx c w frame
   { st := st, w := w.free bufferSize, fx := [f] }
 
@@ -292,34 +311,41 @@ def hwidData (g : Glob) : List Nat :=
   let buf := g.hwid.take 64 ++ zeros (64 - (g.hwid.take 64).length)
   buf.take (hwidScan buf 32 0)
 
+/-- icon request: fetch into the per-session cache on first use, serve from the cache -/
+def qltlvIcon (c : Cfg) (g : Glob) (w : World) (st : St) (img : List Nat) (offset : Nat) : Out :=
+  let (w, st) : World × St :=
+    match st.icon with
+    | some _ => (w, st)
+    | none =>
+      match g.icon with
+      | some (b :: bs) => (w.rawAlloc (b :: bs).length, { st with icon := some (b :: bs) })
+      | _ => (w, st)
+  sendLargeTlvResponse c w st img st.icon offset
+
+/-- friendly name: fetched per call, released after the response -/
+def qltlvFname (c : Cfg) (g : Glob) (w : World) (st : St) (img : List Nat) (offset : Nat) : Out :=
+  match g.fname with
+  | some (b :: bs) =>
+    let o := sendLargeTlvResponse c (w.rawAlloc (b :: bs).length) st img (some (b :: bs)) offset
+    { o with w := o.w.free (b :: bs).length }
+  | _ => sendLargeTlvResponse c w st img none offset
+
+/-- hardware id: 64-byte scratch buffer, released after the response -/
+def qltlvHwid (c : Cfg) (g : Glob) (w : World) (st : St) (img : List Nat) (offset : Nat) : Out :=
+  let (w, ok) := w.malloc 64
+  if !ok then sendLargeTlvResponse c w st img none offset else
+  let o := sendLargeTlvResponse c w st img (some (hwidData g)) offset
+  { o with w := o.w.free 64 }
+
 /-- parseQueryLargeTlv -/
 def parseQueryLargeTlv (c : Cfg) (g : Glob) (w : World) (st : St) (img : List Nat) : Out :=
   if fSeq img = 0 then { st := st, w := w, fx := [] } else
-  let st := { st with seq := fSeq img }
-  let st := setActiveMapper st (fRealSrc img) (fEthSrc img)
+  let st := setActiveMapper { st with seq := fSeq img } (fRealSrc img) (fEthSrc img)
   let ty := byteAt img (X.sizeofDemux + X.offQltlvType)
   let offset := unbe (slice img (X.sizeofDemux + X.offQltlvOffset) 2)
-  if ty = X.tlvIconImage then
-    let (w, st) : World × St :=
-      match st.icon with
-      | some _ => (w, st)
-      | none =>
-        match g.icon with
-        | some (b :: bs) => (w.rawAlloc (b :: bs).length, { st with icon := some (b :: bs) })
-        | _ => (w, st)
-    sendLargeTlvResponse c w st img st.icon offset
-  else if ty = X.tlvFriendlyName then
-    match g.fname with
-    | some (b :: bs) =>
-      let w := w.rawAlloc (b :: bs).length
-      let o := sendLargeTlvResponse c w st img (some (b :: bs)) offset
-      { o with w := o.w.free (b :: bs).length }
-    | _ => sendLargeTlvResponse c w st img none offset
-  else if ty = X.tlvHwId then
-    let (w, ok) := w.malloc 64
-    if !ok then sendLargeTlvResponse c w st img none offset else
-    let o := sendLargeTlvResponse c w st img (some (hwidData g)) offset
-    { o with w := o.w.free 64 }
+  if ty = X.tlvIconImage then qltlvIcon c g w st img offset
+  else if ty = X.tlvFriendlyName then qltlvFname c g w st img offset
+  else if ty = X.tlvHwId then qltlvHwid c g w st img offset
   else sendLargeTlvResponse c w st img none offset
 
 /-- the generation slot value answerHello puts into the Hello (after its own "store if empty" step) -/
@@ -345,11 +371,23 @@ def answerHello (c : Cfg) (g : Glob) (w : World) (st : St) (img : List Nat) : Ou
   let (w, f, _) := sendFx c w frame
   { st := st, w := w.free mtu, fx := [f] }
 
-/-- the ToS-0 Reset arm -/
-def resetTopology (w : World) (st : St) : World × St :=
+/-- the ToS-0 Reset arm: what is freed ... -/
+def resetWorld (w : World) (st : St) : World :=
   let w := freeNodes w st.sees.length
-  let w := match st.icon with | some ic => w.free ic.length | none => w
-  (w, { st with sees := [], count := 0, icon := none, known := false, seq := 0, genTopo := 0, genQuick := 0 })
+  match st.icon with | some ic => w.free ic.length | none => w
+
+/-- ... and the state it leaves (the mapper addresses are not cleared, only marked unknown) -/
+def resetSt (st : St) : St :=
+  { st with sees := [], count := 0, icon := none, known := false, seq := 0, genTopo := 0, genQuick := 0 }
+
+/-- the Discover pre-step of parseFrame for an accepted Discover (literal transcription of the C `if / else if`) -/
+def preStepRaw (st : St) (img : List Nat) : St :=
+  let st := setActiveMapper st (fRealSrc img) (fEthSrc img)
+  let gen := fDiscGen img
+  let quick := fTos img = X.tosQuick
+  let slot := if quick then st.genQuick else st.genTopo
+  let slot' := if slot = 0 ∧ gen ≠ 0 then gen else if slot ≠ gen then gen else slot
+  if quick then { st with genQuick := slot' } else { st with genTopo := slot' }
 
 /-- parseFrame after lltd_state_for_iface has produced the record -/
 def parseFrameSt (c : Cfg) (g : Glob) (w : World) (st : St) (img : List Nat) : Out :=
@@ -359,13 +397,7 @@ def parseFrameSt (c : Cfg) (g : Glob) (w : World) (st : St) (img : List Nat) : O
   -- Discover pre-step
   let pre : Option St :=
     if discovery ∧ op = X.opDiscover then
-      if !mapperMatches st (fRealSrc img) then none else
-      let st := setActiveMapper st (fRealSrc img) (fEthSrc img)
-      let gen := fDiscGen img
-      let quick := tos = X.tosQuick
-      let slot := if quick then st.genQuick else st.genTopo
-      let slot' := if slot = 0 ∧ gen ≠ 0 then gen else if slot ≠ gen then gen else slot
-      some (if quick then { st with genQuick := slot' } else { st with genTopo := slot' })
+      if !mapperMatches st (fRealSrc img) then none else some (preStepRaw st img)
     else some st
   match pre with
   | none => { st := st, w := w, fx := [] }
@@ -380,9 +412,7 @@ def parseFrameSt (c : Cfg) (g : Glob) (w : World) (st : St) (img : List Nat) : O
       else if op = X.opTrain ∨ op = X.opProbe then parseProbe c w st img
       else if op = X.opQuery then parseQuery c w st img
       else if op = X.opQltlv then parseQueryLargeTlv c g w st img
-      else if op = X.opReset then
-        let (w, st) := resetTopology w st
-        { st := st, w := w, fx := [] }
+      else if op = X.opReset then { st := resetSt st, w := resetWorld w st, fx := [] }
       else { st := st, w := w, fx := [] }
     else if tos = X.tosQuick then
       if op = X.opDiscover then
